@@ -28,7 +28,7 @@ FIRST_PROTO = (1, "const", 55)
 
 
 def plan(tier):
-    return [{"kind": "hypothesis", "examples": 400 if tier == "quick" else 10000}]
+    return [{"kind": "hypothesis", "examples": 400 if tier == "quick" else 6000}]
 
 
 @st.composite
